@@ -229,9 +229,14 @@ class Gen:
             elif x < 0.2:
                 c = self.new("QSpacerItem", "spacer", LAYOUTS[cls])
                 if rng.random() < 0.5:
-                    c["props"].append({"name": "orientation", "kind": "expr", "src": "Qt.Vertical", "w": 0, "r": 0, "const": 1, "conv": 1, "ret": 1, "what": "const"})
+                    if not self.clean and rng.random() < 0.35:
+                        # a dynamic binding on a spacer property: spacers have no accessors, so it must be diagnosed in every mode that looks at it
+                        c["props"].append({"name": "orientation", "kind": "expr", "src": "srcB.checked ? Qt.Horizontal : Qt.Vertical", "w": 0, "r": 0, "const": 0, "conv": 1, "ret": 1, "what": "dyn"})
+                    else:
+                        c["props"].append({"name": "orientation", "kind": "expr", "src": "Qt.Vertical", "w": 0, "r": 0, "const": 1, "conv": 1, "ret": 1, "what": "const"})
                 if rng.random() < 0.3:
-                    c["props"].append({"name": "sizeHint", "kind": "gadget", "w": 0, "r": 0, "members": [self.leaf("width", "int", 0, 0, force="const"), self.leaf("height", "int", 0, 0, force="const")]})
+                    c["props"].append({"name": "sizeHint", "kind": "gadget", "w": 0, "r": 0, "members": [self.leaf("width", "int", 0, 0, force="const" if (self.clean or rng.random() < 0.6) else "dyn"),
+                                                                                                     self.leaf("height", "int", 0, 0, force="const")]})
             else:
                 c = self.widget(d + 1, cls)
             if c["kind"] != "widget":
